@@ -39,4 +39,5 @@ b8ed225 C14 ignored_rejection_then_checksum C14.raises_after_ignored_fault
 5bea313 C17 rename_mkdir_missing_parent_raises C17.unexpected_exception
 d4e5600 C12 put_after_cancel_hides_eof C12.b_eof_hidden
 8ff442e C10 destination_directory_in_directory C10.internal_error
+4d76572 C03 resent_finished_dropped_while_acking C03
 LIST
